@@ -3,7 +3,8 @@
 use crate::{Error, Result};
 
 use arrow::compute::{concat_batches, sort_to_indices, take};
-use arrow_array::RecordBatch;
+use arrow_array::{new_null_array, ArrayRef, RecordBatch};
+use arrow_schema::{Field, Schema, SchemaRef};
 use object_store::ObjectStore;
 use parquet::arrow::arrow_reader::ParquetRecordBatchReaderBuilder;
 use std::sync::Arc;
@@ -32,11 +33,64 @@ impl ChunkMerger {
             return Err(Error::InvalidSchema("No data to merge".into()));
         }
 
-        // Concatenate all batches
-        let schema = batches[0].schema();
+        // Chunks of one group need not share a schema (different label sets, or the same
+        // labels in another column order): bring them to one schema by column name first.
+        // Concatenation itself pairs columns by position.
+        let (schema, batches) = Self::align_by_column_name(&batches)?;
         let merged = concat_batches(&schema, &batches)?;
 
         Ok(merged)
+    }
+
+    /// Bring all batches to one schema: the union of their columns by name, in order of
+    /// first appearance. Each batch's columns are placed under their own names; a column
+    /// a batch does not have is filled with nulls for that batch's rows.
+    fn align_by_column_name(batches: &[RecordBatch]) -> Result<(SchemaRef, Vec<RecordBatch>)> {
+        let mut fields: Vec<Field> = Vec::new();
+        for batch in batches {
+            for field in batch.schema().fields() {
+                match fields.iter_mut().find(|f| f.name() == field.name()) {
+                    Some(existing) => {
+                        if existing.data_type() != field.data_type() {
+                            return Err(Error::InvalidSchema(format!(
+                                "Cannot merge chunks: column '{}' has types {} and {}",
+                                field.name(),
+                                existing.data_type(),
+                                field.data_type()
+                            )));
+                        }
+                        if field.is_nullable() && !existing.is_nullable() {
+                            *existing = existing.clone().with_nullable(true);
+                        }
+                    }
+                    None => fields.push(field.as_ref().clone()),
+                }
+            }
+        }
+        for field in fields.iter_mut() {
+            let missing_somewhere = batches
+                .iter()
+                .any(|batch| batch.schema().column_with_name(field.name()).is_none());
+            if missing_somewhere && !field.is_nullable() {
+                *field = field.clone().with_nullable(true);
+            }
+        }
+
+        let schema = Arc::new(Schema::new(fields));
+        let mut aligned = Vec::with_capacity(batches.len());
+        for batch in batches {
+            let columns: Vec<ArrayRef> = schema
+                .fields()
+                .iter()
+                .map(|field| match batch.column_by_name(field.name()) {
+                    Some(column) => column.clone(),
+                    None => new_null_array(field.data_type(), batch.num_rows()),
+                })
+                .collect();
+            aligned.push(RecordBatch::try_new(schema.clone(), columns)?);
+        }
+
+        Ok((schema, aligned))
     }
 
     /// Read a Parquet chunk from object storage
